@@ -33,7 +33,7 @@ Definition acode (a : action) : Z * Z :=
   | ATPMLogAdd => (5, 0)
   | ATPMMeasure id _ => (6, id)
   | ACustom id _ _ _ => (7, id)
-  | ASetFlowFunc id _ => (8, id)
+  | ASetFlowFunc _ _ => (8, 0)     (* which function it carries is not observable *)
   end.
 
 Definition icode (i : icoord) : Z :=
